@@ -199,21 +199,34 @@ type Scenario struct {
 }
 
 type outcome struct {
-	results [][]calls.Result
-	x       *execution
+	results   [][]calls.Result
+	x         *execution
+	warmPanic string
+}
+
+// safeRun executes a call outside the scheduler, turning an escaping panic into a result.
+func safeRun(c calls.Call) (res calls.Result) {
+	defer func() {
+		if p := recover(); p != nil {
+			res = calls.Result{Snap: fmt.Sprintf("LIBRARY-PANIC: %v", p)}
+		}
+	}()
+	return c.Run()
 }
 
 func runScenario(alpha []calls.Call, sc Scenario, prefix []int) *outcome {
 	verifshim.SetController(nil)
 	verifshim.ResetAll()
+	o := &outcome{results: make([][]calls.Result, len(sc.Threads))}
 	if sc.Warm {
 		for _, th := range sc.Threads {
 			for _, c := range th {
-				alpha[c].Run()
+				if res := safeRun(alpha[c]); strings.HasPrefix(res.Snap, "LIBRARY-PANIC") && o.warmPanic == "" {
+					o.warmPanic = fmt.Sprintf("warm-up call %q: %s", alpha[c].Name, res.Snap)
+				}
 			}
 		}
 	}
-	o := &outcome{results: make([][]calls.Result, len(sc.Threads))}
 	x := &execution{prefix: prefix}
 	o.x = x
 	for ti, th := range sc.Threads {
@@ -235,6 +248,8 @@ func runScenario(alpha []calls.Call, sc Scenario, prefix []int) *outcome {
 func judge(alpha []calls.Call, base []string, sc Scenario, o *outcome) string {
 	x := o.x
 	switch {
+	case o.warmPanic != "":
+		return "panic escaped the library during the sequential warm-up history: " + o.warmPanic
 	case x.divergence != "":
 		return "HARNESS: nondeterministic replay: " + x.divergence
 	case x.deadlock:
@@ -406,11 +421,11 @@ func baselines(alpha []calls.Call) (base []string, msg string) {
 	base = make([]string, len(alpha))
 	for i, c := range alpha {
 		verifshim.ResetAll()
-		base[i] = c.Run().Snap
+		base[i] = safeRun(c).Snap
 		if strings.HasPrefix(base[i], "LIBRARY-PANIC") {
 			return base, fmt.Sprintf("call %q panics in isolation: %s", c.Name, base[i])
 		}
-		if again := c.Run().Snap; again != base[i] {
+		if again := safeRun(c).Snap; again != base[i] {
 			return base, fmt.Sprintf("call %q: second execution (warm caches, pooled objects) gives %s, first gave %s", c.Name, trunc(again), trunc(base[i]))
 		}
 	}
